@@ -6,7 +6,7 @@ from ..core import AnalysisError, u, walk_local, enclosing_stmt
 from ..lib import (construct, std_facts, def_of, facts_imply, calls_of_node,
                    in_subtree, terminates_in_raise, facts_at)
 from .wrapper import WrapperModel, REQ
-from .common import allowed_stores, fresh_kwarg_defaults
+from .common import allowed_stores, fresh_kwarg_defaults, signature_agreement
 
 
 def run(ctx):
@@ -15,6 +15,7 @@ def run(ctx):
                                           'config._order_by_signature': set()},
                  'which parameters are REQUIRED is a function of the signature and the lists given at this registration only')
   fresh_kwarg_defaults(ctx, 'C10.registration')
+  signature_agreement(ctx, 'C10.registration')
   w = WrapperModel(ctx)
   f, g, facts = w.f, w.g, w.facts
   con = construct(f)
